@@ -10,7 +10,7 @@ import ast
 import importlib.util
 import itertools
 
-from sa.absint import Interp, Native, Obj, Raised
+from sa.absint import DepthLimit, Interp, Native, Obj, Raised
 from sa.aliasderef import enclosing_catch
 from sa.report import Ctx
 from sa.srcmodel import AnalysisError, Program, dotted, norm, unparse, walk_no_nested
@@ -164,6 +164,9 @@ def run(prog: Program, ctx: Ctx) -> None:  # noqa: PLR0912,PLR0915
             got = it.call(rfn, s, name)
         except Raised as r:
             got = f"<{r.exc}>"
+        except DepthLimit:
+            it.depth = 0
+            got = "<unbounded recursion>"
         want = python_rule(sl, name)
         rows += 1
         leak = got != want and want == "<NameResolutionError>" or (got != want and ".Outer." in str(got) and "Inner" in sl)
